@@ -478,6 +478,68 @@ def twin_trace(tier, idx):
     return sw.run_twin_trace(cfg, cfg['_calls'])
 
 
+def refuse_trace(tier, idx):
+    """a wrapper-suite configuration over an archive that REFUSES some results (their pickling raises): the failing write-backs of
+    evictions, purges and dump() are compared state by state with the Lean model M3F (Model/WrapperFail.lean, Props/C07Refuse.lean)"""
+    import suite_wrapper as sw
+    r = rng('multi-refuse', tier, idx)
+    cfg = sw.gen_cfg(r, 'quick', idx)
+    cfg.update(raising=[], keyerr=[], malformed=False, bystander=False, late_attach=False, longargs=False, mixedargs=False, pre_mem=0, pre_arch=0,
+               backend=r.choice(['file', 'dir', 'sql']), keymap='string', variant=0, purge=r.random() < 0.4)
+    cfg['maxsize'] = r.choice([1, 2, 3, 5])
+    cfg['nkeys'] = cfg['maxsize'] + r.choice([2, 3, 5])
+    cfg['refuse'] = sorted(r.sample(range(cfg['nkeys']), r.choice([1, 1, 2])))
+    ops = []
+    for _ in range(r.choice([30, 60])):
+        p = r.random()
+        if p < 0.86: ops.append(['call', r.randrange(cfg['nkeys'])])
+        elif p < 0.91: ops.append(['dumpAll'])
+        elif p < 0.95: ops.append(['dump', sorted(r.sample(range(cfg['nkeys']), 2))])
+        elif p < 0.98: ops.append(['lookup', r.randrange(cfg['nkeys'])])
+        else: ops.append(['info'])
+    cfg['_ops'] = ops
+    t = sw.run_trace(cfg, ops)
+    t['refuse'] = True
+    return t
+
+
+def refuse_monitor(t):
+    """C07 in the property's own words on a refuse trace: whatever was in memory or in the archive before an operation is in memory or
+    in the archive, with the same value, after it - in particular when the operation raised the archive's exception"""
+    v = []
+    for rec in t['recs']:
+        b, a = rec['before'], rec['after']
+        if 'error' in a or 'error' in b: continue
+        before = dict((k, x) for k, x in (b['arch'] or [])); before.update(dict((k, x) for k, x in b['mem']))
+        after = dict((k, x) for k, x in (a['arch'] or [])); after.update(dict((k, x) for k, x in a['mem']))
+        lost = sorted(k for k in before if k not in after or after[k] != before[k])
+        arch_b = dict((k, x) for k, x in (b['arch'] or [])); arch_a = dict((k, x) for k, x in (a['arch'] or []))
+        damaged = sorted(k for k in arch_b if arch_a.get(k, '<gone>') != arch_b[k])
+        if lost or damaged:
+            v.append(dict(prop='C07', i=rec['i'], sig=dict(kind='refused-write-back-loses-entries', algo=t['cfg']['algo']),
+                          msg='%r (outcome %r): entries %r lost, archive entries %r changed' % (rec['op'], rec['out'], lost[:4], damaged[:4]), cfg=t['cfg'], ops=t['ops']))
+            break
+    return v
+
+
+def refuse_monitor_c05(t):
+    """C05 in the property's own words on a refuse trace: after every call the number of resident entries is at most the larger of
+    maxsize and the number resident before the call (the model M3F agrees with the code that this FAILS for a call whose write-back is
+    refused - C05_refused_overfull - the finding F57)"""
+    v = []
+    ms = t['cfg']['maxsize'] if t['cfg']['algo'] not in ('no', 'inf') else (0 if t['cfg']['algo'] == 'no' else None)
+    if ms is None: return v
+    for rec in t['recs']:
+        b, a = rec['before'], rec['after']
+        if rec['op'][0] != 'call' or 'error' in a or 'error' in b: continue
+        if len(a['mem']) > max(ms, len(b['mem'])):
+            refused = isinstance(rec['out'], dict) and bool(rec['out'].get('exc'))
+            v.append(dict(prop='C05', i=rec['i'], sig=dict(kind='overfull-after-refused-write-back' if refused else 'overfull-on-a-refusing-archive', algo=t['cfg']['algo']),
+                          msg='%r (outcome %r): %d entries resident, %d before, maxsize %r' % (rec['op'], rec['out'], len(a['mem']), len(b['mem']), ms), cfg=t['cfg'], ops=t['ops']))
+            break
+    return v
+
+
 def work(a):
     tier, idx = a
     o = run_case(gen(tier, idx))
@@ -485,6 +547,8 @@ def work(a):
         o['trace'] = recur_trace(tier, idx)
     elif o['cfg']['scen'] == 'twin':
         o['trace'] = twin_trace(tier, idx)
+    elif o['cfg']['scen'] == 'unser':
+        o['trace'] = refuse_trace(tier, idx // 16)       # (its own counter - the scenario sits at idx % 16 == 15 - so that all twelve decorators come up)
     return o
 
 
@@ -503,19 +567,37 @@ def explore(prop, tier, offset=0):
     trs = [o['trace'] for o in res if o.get('trace') is not None]
     errors += [t['err'] for t in trs if t['err']]
     trs = [t for t in trs if not t['err']]
+    ftr = [t for t in trs if t.get('refuse')]; trs = [t for t in trs if not t.get('refuse')]
     divs, mv, wtags, _ = rw._analyse(prop, trs) if prop in ('C01', 'C02', 'C05', 'C06', 'C07', 'C15') else ([], [], {}, 0)
+    if prop in ('C01', 'C02', 'C05', 'C06', 'C07', 'C15', 'C16'):
+        # refuse traces: model M3F on the property's projection (the monitors of the wrapper suite assume write-backs that succeed)
+        import check_wrapper as cw
+        for t, mo in zip(ftr, rw._model_outs(ftr)):
+            d = cw.compare_trace(t, mo, [prop])[prop]
+            if d: divs.append(dict(detail=d, cfg=t['cfg'], ops=t['ops'], refuse=True))
+            tags['refuse-trace'] += 1
+            tags['refused-write-backs'] += sum(1 for x in t['recs'] if isinstance(x['out'], dict) and x['out'].get('exc') and x['op'][0] in ('call', 'dump', 'dumpAll'))
+            tags['refused-eviction'] += sum(1 for x in t['recs'] if isinstance(x['out'], dict) and x['out'].get('exc') and x['op'][0] == 'call')
+            if prop == 'C07': viols += [dict(x, recursive=True) for x in refuse_monitor(t)]
+            if prop == 'C05': viols += [dict(x, recursive=True) for x in refuse_monitor_c05(t)]
     for d in divs: d['suite'] = 'multi'
     viols += [dict(v, recursive=True) for v in mv]
     rt = [t for t in trs if t.get('recursive')]; tt = [t for t in trs if t.get('twin')]
     tags['recursive-trace'] = len(rt); tags['recursive-completions'] = sum(len(t['recs']) for t in rt); tags['evictions-in-model-traces'] = wtags.get('evict', 0)
     tags['twin-trace'] = len(tt); tags['twin-external-writes'] = sum(1 for t in tt for x in t['recs'] if x['op'][0] == 'extput')
     return dict(suite='multi', traces=n + len(trs), evaluations=n + sum(len(t['recs']) for t in trs), distinct_nontrivial=n, tags=dict(tags), divergences=divs, violations=viols, samples=[res[0]['cfg'], res[2]['cfg']],
-                errors=errors[:3], rule=RULE, required_tags=['recur', 'twin', 'unser', 'reuse', 'names', 'chdir', 'hashraises', 'jsonpurge', 'recursive-trace', 'twin-trace'], config_histogram=None)
+                errors=errors[:3], rule=RULE, required_tags=['recur', 'twin', 'unser', 'reuse', 'names', 'chdir', 'hashraises', 'jsonpurge', 'recursive-trace', 'twin-trace'] + (['refuse-trace', 'refused-eviction'] if prop in ('C01', 'C02', 'C05', 'C06', 'C07', 'C15', 'C16') else []), config_histogram=None)
 
 
 def replay(prop, obj):
     if obj.get('recursive'):
         import suite_wrapper as sw, run_wrapper as rw
+        if '_ops' in obj['cfg']:
+            t = sw.run_trace(obj['cfg'], obj['cfg']['_ops'])
+            if t['err']: raise NoVerdict(t['err'])
+            import check_wrapper as cw
+            d = cw.compare_trace(t, rw._model_outs([t])[0], [prop])[prop]
+            return dict(violations=[dict(prop=prop, sig=v['sig'], msg=v['msg'], i=v.get('i', 0)) for v in (refuse_monitor(t) if prop == 'C07' else refuse_monitor_c05(t) if prop == 'C05' else [])], divergence=d)
         t = sw.run_recursive_trace(obj['cfg'], obj['cfg']['_tops']) if '_tops' in obj['cfg'] else sw.run_twin_trace(obj['cfg'], obj['cfg']['_calls'])
         if t['err']: raise NoVerdict(t['err'])
         divs, mv, _, _ = rw._analyse(prop, [t])
